@@ -29,6 +29,10 @@ CLAIMED = {
    text='Machine-checked proof (Lean 4): hex_roundtrip — for EVERY image of at most 2^32 bytes with arbitrary contents (empty image included) the text the writer model produces splits into lines that all parse as well-formed Intel HEX records under an independent reader that verifies length field and checksum, ends in the single EOF record, and decodes (types 00/01/02/04, segment/linear base) to exactly byte i at address i, nothing else (proof by induction over 16-byte chunks and 64 KiB blocks, core Lean, no finite bound). Tie: write_code_hex / write_eeprom_hex run on every length < 600 and every length within a record of each 64 KiB boundary up to the largest flash of the table; file bytes compared with the model and fed to the same independent reader.',
    note='Trusted: Lean kernel; the ihex crate (a dependency) is modelled, tied by correspondence only; OS file writes assumed faithful; the reader spec (Spec.Hex) is a hand-written statement of the Intel HEX format.',
    technique='Lean 4 theorem (reader o writer = identity, unbounded length) + differential correspondence on real files', ref='6/C07'),
+ 'C08': dict(
+   text='Machine-checked proof (Lean 4): conditional_selects — for EVERY well-formed conditional tree (any number of .elif arms, with or without .else, nested to any depth in taken and untaken branches, arbitrary payload text including text that does not parse), followed by any lines, from every state, the model of parse_iter/skip on the text of the tree ends in exactly the state (or failure) of the reference semantics that assembles only the plain lines of the first branch whose condition holds (or of .else), in order — by mutual structural induction over the tree with lemmas for every way skip moves over a tree (skip_block…, finish_construct); loop-bound irrelevance of the line loop is proved (fuel_irrelevant). Tie: differential run (impl vs model) and the metamorphic oracle the property names (build(src) = build(src with unselected lines blanked)) over all shapes x truth assignments x nesting positions and random deeper trees.',
+   note='Trusted: Lean kernel; well-formedness restricts construct directive lines to carry no label and plain lines in SELECTED positions not to be .macro/.exit lines (outcome "scope": no claim); the last step to "program with the lines deleted" is exercised by the metamorphic run, not yet a theorem.',
+   technique='Lean 4 theorem (simulation by mutual structural induction over conditional trees) + metamorphic differential correspondence', ref='6/C08'),
  'C12': dict(
    text='Machine-checked proof (Lean 4): Gen obligation devices_match_partdefs (every shipped includes/*def.inc that names a device of the table declares exactly the four capacities the table enforces; table re-extracted by executing DEVICES, part files re-parsed, on every run); build_fits / limits_exact (a build succeeds iff code <= 2*flash words, eeprom <= eeprom bytes, RAM extent <= RAM size of the device selected, and reports that device\'s sizes); pass1_within; unknown/second device are errors; documented defaults. Tie: exhaustive differential run over every device x 3 memories x {-1,0,+1} x ways of filling.',
    note='Trusted: Lean kernel, static parser of the part files, hand-written model of builder/mod.rs + pass1 tied by correspondence; for devices without a part file the expected capacity is the code\'s own row.',
